@@ -31,6 +31,17 @@ def field_assignments(ctx, adt, field, prefix='server::'):
     return out
 
 
+def _match(form, expected):
+    import re
+    for x in expected:
+        if x.startswith('re:'):
+            if re.search(x[3:], form):
+                return x
+        elif x == form:
+            return x
+    return None
+
+
 def check_table(ctx, rep, rid, adt, table, allow_in=()):
     """table: {field: {fn_def: [expected canon forms (multiset)]}}.  Every assignment site must match an expected form of
     its function; every expected form must be matched by a site; assignments in functions not listed are violations
@@ -44,8 +55,9 @@ def check_table(ctx, rep, rid, adt, table, allow_in=()):
             got = byfn.pop(fn, [])
             matched = set()
             for form, b, ln in got:
-                if form in expected:
-                    matched.add(form)
+                m = _match(form, expected)
+                if m is not None:
+                    matched.add(m)
                     rep.ob(rid, fn, '%s = %s' % (field, form), True, '%s:%s' % (b.file, ln), None)
                 else:
                     rep.ob(rid, fn, '%s = %s' % (field, form), False, '%s:%s' % (b.file, ln),
